@@ -21,30 +21,39 @@ META = {
             "string_concat, ==, Ord, is_true, map insertion, get_item/get_attr/slice, filters, tests, callees) are parameters of the "
             "theorems because folder and VM share them. Tie: (a) tables regenerated from the source - operator arms of eval_binop/"
             "eval_compare/compile_bin_op/emit_compare/compare_op/func_binop!/op_binop!/CompareAndPreserve proved equal to the model's, "
-            "the set of Expr variants as_const handles, the code generator's three compile-time special cases; (b) the harness "
+            "the set of Expr variants as_const handles and the code generator's compile-time special cases, over which the model's folder "
+            "DISPATCHES (it folds exactly the node kinds the source folds; a new foldable kind or a second as_const call site breaks "
+            "traversal_from_source), MAX_REPEATED_STRING_LEN and the ValueKind order used by the concrete value model; (b) the harness "
             "generates expressions over the literal grammar (depth<=5, numeric boundary zoo, floats, escaped strings, containers with "
             "repeated keys, chains, keyword arguments, item/attribute access, slices, if-expressions, filters, tests) and templates with "
             "literals in statement heads (if/elif, for, set, with, macro defaults, include/extends/import/from targets, autoescape, "
             "filter arguments, call blocks), renders all 2^k (k<=6, 64 sampled beyond (templates: k<=4, 20 sampled beyond)) hoisting variants on the real engine under the "
             "four undefined modes (oracle: identical output / error kind, identical value via compile_expression, template loads), and "
             "compares the real as_const, the LoadConst in the real instruction stream and the real values with the Lean model run on "
-            "the real parser's AST.",
+            "the real parser's AST. Every hoisting variant of an expression is rendered through a rotating entry point "
+            "(template_from_str, render_str, render_named_str, add_template_owned+get_template, render_captured_to, render_captured, "
+            "template_from_named_str, the Expression API followed by an emit), cases rotate through environment configurations "
+            "(plain, html auto-escape callback, custom formatter, debug off, custom syntax), and a second build with "
+            "feature preserve_order runs a quarter of the cases under the hoisting oracle.",
     "design_ref": "DESIGN.md §3 C04",
     "level_note": "Trusted: Lean kernel; hand transcription of as_const's traversal, compile_expr/compile_compare/compile_call_args "
                   "and the VM handlers into MJ/Model/Fold.lean (the operator tables and the list of folded variants are regenerated "
                   "from the source and proved equal to the model's; evaluation order and jump structure are validated by the "
                   "differential streams). The theorems assume Prims.Lawful (no operation returns undefined, is_true(Bool b)=b, "
-                  "contains returns a bool) - proved for the model's transcription of value/ops.rs (concrete_prims_lawful), for the "
-                  "real ops.rs only validated through the value correspondence - and Expr.WF (no undefined constant, Compare has >=1 "
+                  "contains returns a bool) - PROVED for the concrete Lean model of the value operations (concrete_prims_lawful, so "
+                  "C04_concrete has no hypothesis about them left; also proved there: the last pair of a map literal / the last "
+                  "keyword argument of a name wins), which the value correspondence ties to the real ops.rs on every harness case - and Expr.WF (no undefined constant, Compare has >=1 "
                   "operator), checked on the real parser's AST of every harness case. The concrete value operations "
                   "(MJ/Model/FoldPrims.lean: exact binary64 on bit patterns incl. shortest float text, python string repr, i128 "
                   "arithmetic, Ord/==, slices, a dozen builtin filters/tests) are validated by the value correspondence; what is not "
                   "transcribed (inexact powf, NaN ordering, the filters upper/int/round, `is sequence` because lazy iterables are "
                   "dumped as lists) is reported unmodelled (<3% of the expression cases) and covered by the hoisting oracle alone. "
+                  "With preserve_order, sources that build or index a map and can produce a boolean are left out (true==1 hash "
+                  "differently: C07's recorded finding eq-vs-hash:Bool~Number makes such maps depend on the random hash seed). "
                   "Statements are covered by the hoisting oracle only (no statement model); for every template variant the oracle "
                   "observes its own rendering, the compiled block table, render_block of every candidate name, the exports and the "
-                  "renderings of consumers that extend/import/include it. Method calls, call of non-global "
-                  "callables, splat arguments and depth>5 are outside the box.",
+                  "renderings of consumers that extend/import/include it. Method calls and calls of non-global "
+                  "callables are outside the box; splat arguments are oracle-only.",
 }
 
 FIELDS = ["key", "ast", "load", "k", "nvar", "lit", "hoist", "diff", "fold", "code", "vallit", "valhoist", "cfg"]
@@ -118,7 +127,7 @@ def run(r):
     r.rule = ("hand-written seeds (and/or on falsy operands, negated boundary literals, constant division by zero, `in`, `~`, "
               "comparison chains, map literals with repeated/colliding keys, floats and their text, escaped strings, keyword "
               "arguments, item/attribute access, slices, if-expressions, filters, tests, undefined) plus random expressions over "
-              "the grammar (depth 1..5, <=40 literal leaves) plus templates with literal expressions in statement heads (27 "
+              "the grammar (depth 1..5, every 16th case 6..8, <=48 literal leaves) plus templates with literal expressions in statement heads (27 "
               "statement shapes + seeds); for each, all 2^k hoisting subsets for k<=6 and 64 sampled (none, all, singletons, "
               "co-singletons, random) beyond; a case is non-trivial when it has at least one literal leaf and an operator or statement")
     r.assumptions = ["context variables hold exactly the Value the front end builds for the literal (obtained by evaluating the literal alone)",
